@@ -517,3 +517,22 @@ def r15_lower_for(src, body_open_byte=0):
         pos = b
     out.append(src[pos:])
     return ''.join(out), lowered
+
+
+def r22_adapters(src):
+    """R22: iterator adapter chains with a closure are desugared into loops, the closure body kept verbatim:
+         X.iter().all(|v| B)            -> { let mut __all = true;  for v in X.iter() { if !(B) { __all = false; break; } } __all }
+         X.iter().any(|v| B)            -> { let mut __any = false; for v in X.iter() { if B { __any = true; break; } } __any }
+         X.iter().filter(|v| B).count() -> { let mut __cnt: usize = 0; for v in X.iter() { if B { __cnt = __cnt + 1; } } __cnt }
+       (std semantics of all/any/filter+count over a slice iterator, including short-circuiting)."""
+    n = 0
+    src, k = apply_pattern(src, '$X:chain . iter ( ) . filter ( | $V:id | $B:args ) . count ( )',
+                           '({ let mut __cnt: usize = 0; for $V in $X.iter() { if $B { __cnt = __cnt + 1; } } __cnt })')
+    n += k
+    src, k = apply_pattern(src, '$X:chain . iter ( ) . all ( | $V:id | $B:args )',
+                           '({ let mut __all = true; for $V in $X.iter() { if !($B) { __all = false; break; } } __all })')
+    n += k
+    src, k = apply_pattern(src, '$X:chain . iter ( ) . any ( | $V:id | $B:args )',
+                           '({ let mut __any = false; for $V in $X.iter() { if $B { __any = true; break; } } __any })')
+    n += k
+    return src, n
